@@ -468,12 +468,12 @@ DELTAS = [Fraction(1, 10 ** 7), Fraction(3, 10 ** 6), Fraction(5, 10 ** 6), Frac
 LADDER = [Fraction(105, 10 ** 6), Fraction(1005, 10 ** 8)]
 
 
-def near_face_spos(rng, U, box, delta=None, below=None):
+def near_face_spos(rng, U, box, delta=None, below=None, axis=None):
     """exact relative coordinates, in the ORIGINAL cell `box`, of an atom that sits a hair off (not on) a face, an edge
     or a corner of the NEW cell - the cell U.vects at the Cartesian origin, where rotate cuts it out - on either side of
     it (`below`: just below an upper face; `delta`: how far)."""
     sp = [Fraction(rng.randint(1, 7), 8) for _ in range(3)]
-    for c in rng.sample(range(3), rng.choice([1, 1, 1, 2, 3]) if delta is None else 1):
+    for c in ([axis] if axis is not None else rng.sample(range(3), rng.choice([1, 1, 1, 2, 3]) if delta is None else 1)):
         dl = delta if delta is not None else rng.choice(DELTAS)
         sp[c] = (1 - dl) if (below or (below is None and rng.random() < 0.5)) else dl
     # position in units of the original cell vectors about the Cartesian origin, then relative to the box origin
@@ -1356,8 +1356,20 @@ def _shared_memory(np, sysm, new):
     return out
 
 
-def _oracle_rotate(ctx, am, sysm, fam, spos, U, d, arg, form, accepted, key, tol=None):
-    """all clauses for one rotate call; `U` are the integers `arg` stands for."""
+def _is_lammps_normal(np, vects):
+    """LAMMPS-compatible, decided on the numbers (not by asking the Box under test): a along +x, b in the xy plane with
+    positive y, c with positive z."""
+    v = np.asarray(vects, dtype=float)
+    return bool(v[0, 1] == 0.0 and v[0, 2] == 0.0 and v[1, 2] == 0.0 and v[0, 0] > 0.0 and v[1, 1] > 0.0 and v[2, 2] > 0.0)
+
+
+def _oracle_rotate(ctx, am, sysm, fam, spos, U, d, arg, form, accepted, key, tol=None, call=None, label='rotate',
+                   may_refuse=False, big=False, replay_extra=None):
+    """all clauses for one rotate call; `U` are the integers `arg` stands for. `call`: the re-expression is obtained by
+    this function of the system -> (new system, transform) instead of by `rotate` itself (a cell conversion, which IS
+    rotate by the integers U of a centering table); `may_refuse`: rotate's own "Filtering failed" is accepted (an atom
+    stored outside the cell); `big`: results of 1e5 .. 1e6 atoms - the vectorised oracle. Returns (new, T) when the call
+    delivered and the crystal is the same, else None."""
     np = _np()
     I3 = np.eye(3)
     uv = np.asarray(arg, dtype=float).tolist()
@@ -1365,23 +1377,35 @@ def _oracle_rotate(ctx, am, sysm, fam, spos, U, d, arg, form, accepted, key, tol
               'origin': sysm.box.origin.tolist(), 'spos': [[float(x) for x in sp] for sp in spos],
               'atype': sysm.atoms.atype.tolist(), 'U': U, 'uvws': uv, 'form': form, 'accepted': accepted,
               'tol': (np.asarray(tol).tolist() if isinstance(tol, (np.ndarray, np.floating)) else tol)}
+    if label != 'rotate':
+        replay['label'] = label
+    if big:
+        replay['big'] = True
+    if may_refuse:
+        replay['may_refuse'] = True
+    replay.update(replay_extra or {})
     pbc_in = [bool(x) for x in sysm.pbc]
-    what = (f'rotate uvws={uv} ({form}; integers {U}, det {d}; {fam}; pbc {pbc_in}'
+    what = (f'{label} uvws={uv} ({form}; integers {U}, det {d}; {fam}; pbc {pbc_in}'
             + (f'; history on the object {sysm._c04["history"]}' if sysm._c04['history'] else '') + ')'
             + (f' tol={tol}' if tol is not None else ''))
     before = (sysm.atoms.pos.copy(), sysm.box.vects.copy(), sysm.box.origin.copy(), sysm.atoms.atype.copy())
     # (the flag as True / 1 / numpy.True_: truthiness is the documented meaning of a bool option)
     flag = (True, 1, np.True_)[sum(abs(int(x)) for row in U for x in row) % 3]
     try:
-        if tol is None:
+        if call is not None:
+            new, T = call(sysm)
+        elif tol is None:
             new, T = sysm.rotate(arg, return_transform=flag)
         else:
             new, T = sysm.rotate(arg, tol=tol, return_transform=flag)
     except Exception as e:  # noqa
         if not accepted and isinstance(e, ValueError):
             return
-        ctx.violate(key + ':raises', f'rotate raised {type(e).__name__}: {e} for {what}, origin '
-                    f'{sysm.box.origin.tolist()}, relative positions {replay["spos"]}', replay)
+        if may_refuse and isinstance(e, ValueError) and 'Filtering failed' in str(e):
+            ctx.extra['outside_refused'] = ctx.extra.get('outside_refused', 0) + 1
+            return
+        ctx.violate(key + ':raises', f'{label} raised {type(e).__name__}: {e} for {what}, origin '
+                    f'{sysm.box.origin.tolist()}, relative positions {replay["spos"][:12]}', replay)
         return
     if not accepted:
         ctx.violate(key + ':refusal', f'{what}: indices that are not integers (3 tolerances or more off) were accepted',
@@ -1402,16 +1426,23 @@ def _oracle_rotate(ctx, am, sysm, fam, spos, U, d, arg, form, accepted, key, tol
         # the clean-up of the Box.vects setter removed a tilt component of the normalized cell: compared at that bound
         cl = 4 * cl * float(np.abs(np.linalg.inv(sysm.box.vects)).sum(axis=0).max())
         ctx.extra['oracle_rotate_cleanup_bound_cases'] = ctx.extra.get('oracle_rotate_cleanup_bound_cases', 0) + 1
-    if not _check_same_crystal(ctx, key, what, sysm, spos, new, T, abs(d), replay, extra_tol=cl):
+    T = np.asarray(T, dtype=float)
+    if T.shape != (3, 3) or not (np.allclose(T @ T.T, I3, atol=1e-9) and abs(np.linalg.det(T) - 1) < 1e-9):
+        ctx.violate(key + ':transform', f'{what}: returned transform {T.tolist()} is not a proper rotation', replay)
+        return
+    # "a re-oriented cell is LAMMPS-compatible with every atom inside it" - evaluated on the numbers of the result (cell
+    # vectors; relative coordinates by numpy from the Cartesian positions, not by the Box under test)
+    if not (_is_lammps_normal(np, new.box.vects) and new.box.is_lammps_norm()):
+        ctx.violate(key + ':lammps-normal', f'{what}: result box {new.box.vects.tolist()} is not LAMMPS-compatible', replay)
+    if new.natoms:
+        sp = np.linalg.solve(new.box.vects.T, (new.atoms.pos - new.box.origin).T).T
+        if sp.min() < -1e-9 or sp.max() > 1 + 1e-9:
+            ctx.violate(key + ':inside', f'{what}: atoms outside the new cell (rel range {sp.min()}..{sp.max()})', replay)
+    same = _kd_same_crystal if big else _check_same_crystal
+    if not same(ctx, key, what, sysm, spos, new, T, abs(d), replay, extra_tol=cl):
         return
     _check_new_vectors(ctx, key + ':vectors', what, sysm, U, new, T, replay)
-    if not new.box.is_lammps_norm():
-        ctx.violate(key + ':lammps-normal', f'{what}: result box is not LAMMPS-compatible', replay)
-    sp = new.atoms_prop('pos', scale=True)
-    if sp.min() < -1e-9 or sp.max() > 1 + 1e-9:
-        ctx.violate(key + ':inside', f'{what}: atoms outside the new cell (rel range {sp.min()}..{sp.max()})', replay)
-    if not (np.allclose(T @ T.T, I3, atol=1e-9) and abs(np.linalg.det(T) - 1) < 1e-9):
-        ctx.violate(key + ':transform', f'{what}: returned transform is not a proper rotation', replay)
+    return new, T
 
 
 def search(ctx, broken):
@@ -1535,7 +1566,9 @@ def search(ctx, broken):
             ctx.violate('rotate:refusal', f'rotate raised {type(e).__name__} ({e}) instead of ValueError for {why} '
                         f'vectors {bad}', {'op': 'rotate-refusal', 'U': bad})
     _search_counts(ctx, rng, am, scale)
+    _search_large(ctx, rng, am, scale)
     _search_conversions(ctx, rng, am)
+    _search_p2c_direct(ctx, rng, am, scale)
 
 
 # ----------------------------------------------------------------------------------------------
@@ -1566,7 +1599,7 @@ def grid_system(am, rng, natoms, G=8192, fam_box=None):
     return build_system(am, case), fam, pts
 
 
-def _fast_same_crystal(ctx, key, what, sysm, pts, G, new, T, count, replay, shifts=None):
+def _fast_same_crystal(ctx, key, what, sysm, pts, G, new, T, count, replay, shifts=None, ranges=None):
     """the clauses of `_check_same_crystal`, vectorised for large results: the originals sit on the exact 1/G grid
     (`pts`: integer numerators), so "maps onto an original atom modulo the lattice" is a dictionary lookup of the nearest
     grid point of each result atom, the residual compared at the rounding bound; types and every per-atom value equal;
@@ -1622,6 +1655,74 @@ def _fast_same_crystal(ctx, key, what, sysm, pts, G, new, T, count, replay, shif
         return False
     if shifts is not None and set(map(tuple, cellshift.tolist())) != shifts:
         ctx.violate(key + ':member', f'{what}: the replicas do not fill the cells {sorted(shifts)[:3]} .. of the supercell', replay)
+        return False
+    if ranges is not None:
+        # (the same statement for results of 1e6 atoms without building the set: every cell shift within the ranges; with
+        # each original `count` times in pairwise different cells that is every cell of the range product exactly once)
+        lo, hi = np.array([r[0] for r in ranges]), np.array([r[1] for r in ranges])
+        if not ((cellshift >= lo).all() and (cellshift < hi).all()):
+            ctx.violate(key + ':member', f'{what}: replicas outside the cells {[list(r) for r in ranges]} of the supercell', replay)
+            return False
+    return True
+
+
+def _kd_same_crystal(ctx, key, what, sysm, spos, new, T, count, replay, extra_tol=0.0):
+    """the clauses of `_check_same_crystal`, vectorised for results of 1e5 .. 2e6 atoms, originals at ANY exact relative
+    coordinates `spos` (atoms a hair off the faces of the new cell are on no grid): the original nearest to each result
+    atom modulo the original lattice is looked up in a periodic k-d tree of the originals (scipy, relative coordinates
+    modulo 1), the residual per coordinate is compared at the rounding bound, type and every per-atom value must be that
+    original's; each original `count` times, in pairwise different cells of the original lattice."""
+    np = _np()
+    from scipy.spatial import cKDTree
+    if new.natoms != count * sysm.natoms:
+        ctx.violate(key + ':count', f'{what}: {new.natoms} atoms, expected {count} x {sysm.natoms}', replay)
+        return False
+    vol0, vol1 = abs(float(np.linalg.det(sysm.box.vects))), new.box.volume
+    if not (vol1 > 0) or abs(vol1 - count * vol0) > 1e-8 * abs(vol1):
+        ctx.violate(key + ':volume', f'{what}: volume {vol1}, expected {count} x {vol0}', replay)
+        return False
+    if tuple(new.symbols) != tuple(sysm.symbols):
+        ctx.violate(key + ':symbols', f'{what}: atom types stand for {tuple(new.symbols)}, originally {tuple(sysm.symbols)}', replay)
+        return False
+    if sorted(new.atoms_prop()) != sorted(sysm.atoms_prop()):
+        ctx.violate(key + ':properties', f'{what}: per-atom properties {sorted(new.atoms_prop())}, original has '
+                    f'{sorted(sysm.atoms_prop())}', replay)
+        return False
+    tol = _tol_rel(np, sysm.box.vects, new.atoms.pos, sysm.box.origin, new.box.vects) + extra_tol
+    stored = np.array([[float(x) for x in sp] for sp in spos], dtype=float).reshape(-1, 3)
+    wrapped = np.array([[float(frac_mod1(Fraction(x))) for x in sp] for sp in spos], dtype=float).reshape(-1, 3)
+    wrapped[wrapped >= 1.0] = 0.0
+    rel = (new.atoms.pos @ T - sysm.box.origin) @ np.linalg.inv(sysm.box.vects)        # rows: T^T pos
+    relm = rel - np.floor(rel)
+    relm[relm >= 1.0] = 0.0
+    _, idx = cKDTree(wrapped, boxsize=1.0).query(relm)
+    d = rel - stored[idx]
+    sh = np.rint(d)
+    resid = np.abs(d - sh).max(axis=1)
+    if resid.max() > tol:
+        k = int(resid.argmax())
+        ctx.violate(key + ':member', f'{what}: result atom {k} (type {int(new.atoms.atype[k])}, relative {rel[k].tolist()} in the '
+                    f'original cell) maps onto no original atom modulo the original lattice: the nearest one is '
+                    f'{resid[k]:.3g} of a cell away (rounding bound {tol:.1e})', replay)
+        return False
+    for name in sysm.atoms_prop():
+        if name == 'pos':
+            continue
+        a, b = np.asarray(new.atoms.view[name]), np.asarray(sysm.atoms.view[name])[idx]
+        if a.shape != b.shape or not np.array_equal(a, b):
+            k = int(np.where((a != b).reshape(len(a), -1).any(axis=1))[0][0]) if a.shape == b.shape else 0
+            ctx.violate(key + ':member', f'{what}: result atom {k} maps onto original atom {int(idx[k])} but its {name!r} is '
+                        f'{np.asarray(new.atoms.view[name][k]).tolist()!r}, the original\'s '
+                        f'{np.asarray(sysm.atoms.view[name][idx[k]]).tolist()!r}', replay)
+            return False
+    hits = np.bincount(idx, minlength=sysm.natoms)
+    if (hits != count).any():
+        ctx.violate(key + ':representation', f'{what}: originals represented {sorted(set(hits.tolist()))[:6]} times, expected '
+                    f'{count} each', replay)
+        return False
+    full = np.concatenate([idx[:, None], sh.astype(np.int64)], axis=1)
+    if len(np.unique(full, axis=0)) != new.natoms:
+        ctx.violate(key + ':coincide', f'{what}: two result atoms are the same original atom in the same cell', replay)
         return False
     return True
 
@@ -1762,6 +1863,181 @@ def _search_counts(ctx, rng, am, scale=1):
             _check_new_vectors(ctx, 'rotate:vectors', what, sysm, U, new, T, replay)
 
 
+# ----------------------------------------------------------------------------------------------
+# large re-orientations: a bounding supercell of 5e5 .. 1e6 atoms (thorough: 2e6), atoms a hair off the new cell's faces
+# ----------------------------------------------------------------------------------------------
+# distances (relative to the NEW cell) far below the last rung 1e-7 of the default ladder, so that EVERY rung rounds the
+# atom onto the face - the kept image is then the one just outside the new cell - and a few within / above the ladder
+HAIRS_TINY = [Fraction(2, 10 ** 9), Fraction(13, 10 ** 9), Fraction(6, 10 ** 8)]
+HAIRS_WIDE = [Fraction(3, 10 ** 7), Fraction(31, 10 ** 7), Fraction(43, 10 ** 6), Fraction(2, 10 ** 4)]
+
+
+def _scaled_U(rng, kind, natoms, lo, hi):
+    """integer vectors whose bounding supercell (8 corners -/+ 1) holds between `lo` and `hi` atoms for `natoms` atoms per
+    cell. `orthogonal`: a signed permutation times a diagonal (isotropic or strongly anisotropic); `triangular`: lower
+    triangular with shears of up to 12 (the new a along the old a, the new b in the old ab plane); `general`: the rows of
+    a small matrix of either handedness multiplied by large integers. Entries stay below 260."""
+    while True:
+        cells = rng.uniform(lo, hi) / natoms
+        if rng.random() < 0.5:
+            n = [max(3, round(cells ** (1 / 3)) - 2 + rng.randint(-3, 3)) for _ in range(3)]
+        else:
+            n1 = rng.randint(8, 160)
+            n2 = rng.randint(8, min(160, max(8, int(cells / (n1 + 2) / 8))))
+            n = [n1, n2, max(3, round(cells / ((n1 + 2) * (n2 + 2))) - 2)]
+            rng.shuffle(n)
+        n = [x * rng.choice([-1, 1]) for x in n]
+        if kind == 'orthogonal':
+            perm = rng.sample(range(3), 3)
+            U = [[(n[i] if j == perm[i] else 0) for j in range(3)] for i in range(3)]
+        elif kind == 'triangular':
+            U = [[n[0], 0, 0], [rng.randint(-12, 12), n[1], 0], [rng.randint(-12, 12), rng.randint(-12, 12), n[2]]]
+        else:
+            U0, _ = gen_U(rng, maxdet=3)
+            m = [max(2, abs(x) // 2) * (1 if x > 0 else -1) for x in n]
+            U = [[m[i] * U0[i][j] for j in range(3)] for i in range(3)]
+        if _det3(U) != 0 and max(abs(x) for r in U for x in r) <= 260 and lo <= supercell_cells(U) * natoms <= hi:
+            return U, _det3(U)
+
+
+def gen_large_rotate(rng, am, kind, lo, hi):
+    """a few-atom cell and integer vectors with a bounding supercell of `lo` .. `hi` atoms: 1-3 atoms on the 1/8 grid (faces
+    included), and for EACH axis of the new cell one atom a hair (2e-9 .. 6e-8 of the new cell: below every rung of the
+    ladder) off the face of the new cell across that axis - so the image every rung keeps lies just outside the new
+    cell, where only the padding of the bounding supercell holds it - plus one more 3e-7 .. 2e-4 off a face on either side.
+    `orthogonal`: an orthogonal cell in the LAMMPS orientation (the new cell's faces are axis-aligned planes of the
+    Cartesian frame); `triangular`: any LAMMPS-oriented cell (the new ab face is the plane z = const); `general`: any cell.
+    -> (system, family, spos, U, det)"""
+    np = _np()
+    org = rng.choice([[0.0, 0.0, 0.0], [cm.dyadic(rng, -3, 3, 2) for _ in range(3)], 'lattice', 'hair'])
+    while True:
+        if kind == 'orthogonal':
+            a = rng.choice([2.0, 2.5, 3.0, 3.3, 4.0])
+            fam = rng.choice(['cubic', 'tetragonal', 'orthorhombic'])
+            b = a if fam != 'orthorhombic' else rng.choice([2.75, 3.5, 3.7])
+            c = a if fam == 'cubic' else rng.choice([3.75, 4.1, 5.25])
+            box = am.Box(a=a, b=b, c=c)
+        else:
+            box, fam = _gen_box(rng, am)
+            if kind == 'triangular' and (fam in ('general', 'lefthanded') or not _is_lammps_normal(np, box.vects)):
+                continue
+        break
+    if isinstance(org, str):
+        # the box origin a lattice vector / a hair below a lattice plane (the lattice translation of rotate decides)
+        nrel = np.array([rng.randint(-2, 2) - (rng.choice([1.3e-13, 1.7e-9, 1.3e-6]) if org == 'hair' else 0.0) for _ in range(3)])
+        org = (nrel @ box.vects).tolist()
+    box = am.Box(vects=box.vects, origin=org)
+    while True:
+        U, d = _scaled_U(rng, kind, 6, lo, hi)
+
+        def extra(bx):
+            out = [near_face_spos(rng, U, bx, delta=rng.choice(HAIRS_TINY), below=True, axis=j) for j in range(3)]
+            out.append(near_face_spos(rng, U, bx, delta=rng.choice(HAIRS_WIDE + HAIRS_TINY), below=rng.random() < 0.5))
+            return out
+
+        sysm, fam2, spos = gen_system(rng, am, fam_box=(box, fam + f'+large-{kind}'), extra=extra, far=rng.random() < 0.5,
+                                      pbc=[True, True, True])
+        if lo <= supercell_cells(U) * sysm.natoms <= 1.2 * hi:
+            break
+    # (light per-atom data: a float and a unique integer - the bounding supercell carries every property 1e6 times)
+    case = dict(sysm._c04, props=[['q', 'f', [((i * 37) % 64) / 16 - 2 for i in range(sysm.natoms)]],
+                                  ['tag', 'i', list(range(1, sysm.natoms + 1))]])
+    return build_system(am, case), fam2, spos, U, d
+
+
+def _large_grid_case(am, gseed, natoms, U):
+    """a cell of `natoms` atoms: natoms - 3 on the exact 1/8192 grid and three a hair below the lower faces of the new cell
+    U.vects (on no grid); everything derived from `gseed` -> (system, family, spos, the three)"""
+    grng = random.Random(gseed)
+    while True:
+        fam_box = _gen_box(grng, am)
+        if fam_box[1] not in ('general', 'lefthanded'):
+            break
+    g, fam, pts = grid_system(am, grng, natoms - 3, fam_box=fam_box)
+    hair = [near_face_spos(grng, U, g.box, delta=grng.choice(HAIRS_TINY), below=True, axis=j) for j in range(3)]
+    case = dict(g._c04)
+    case['spos'] = case['spos'] + [[float(x) for x in h] for h in hair]
+    case['atype'] = case['atype'] + [1, 2, 1]
+    case['props'] = [['q', 'f', case['props'][0][2] + [0.5, -0.25, 1.5]], ['tag', 'i', list(range(1, natoms + 1))]]
+    spos = [tuple(Fraction(x, 8192) for x in pnt) for pnt in pts] + [tuple(h) for h in hair]
+    return build_system(am, case), fam, spos, hair
+
+
+def _oracle_large_grid(ctx, am, gseed, natoms, U):
+    np = _np()
+    sysm, fam, spos, hair = _large_grid_case(am, gseed, natoms, U)
+    d = _det3(U)
+    what = f'rotate {U} of a {natoms}-atom {fam} cell (bounding supercell {supercell_cells(U) * natoms} atoms)'
+    replay = {'op': 'rotate-large-grid', 'natoms': natoms, 'U': U, 'grid_seed': gseed}
+    try:
+        new, T = sysm.rotate(U, return_transform=True)
+    except Exception as e:  # noqa
+        ctx.violate('rotate:raises', f'{what} raised {type(e).__name__}: {e}; the last three atoms sit at relative '
+                    f'{[[float(x) for x in h] for h in hair]}, a hair below the lower faces of the new cell', replay)
+        return fam
+    if _kd_same_crystal(ctx, 'rotate', what, sysm, spos, new, T, abs(d), replay):
+        sp = np.linalg.solve(new.box.vects.T, (new.atoms.pos - new.box.origin).T).T
+        if sp.min() < -1e-9 or sp.max() > 1 + 1e-9 or not _is_lammps_normal(np, new.box.vects):
+            ctx.violate('rotate:inside', f'{what}: atoms outside the new cell / cell not LAMMPS-compatible', replay)
+        _check_new_vectors(ctx, 'rotate:vectors', what, sysm, U, new, T, replay)
+    return fam
+
+
+def _search_large(ctx, rng, am, scale=1):
+    """thresholds in the SIZE of rotate's bounding supercell (fast paths / pre-filters that switch on above some number of
+    atoms): per run two re-orientations of few-atom cells with a bounding supercell of 5.2e5 .. 1.05e6 atoms (one with
+    axis-aligned faces, one sheared or general), one of a cell of 9000 .. 21000 atoms along small vectors (the same
+    supercell size reached the other way), and a supersize of that size; thorough: every kind, and 2e6 atoms."""
+    np = _np()
+    I3 = np.eye(3)
+    kinds = ['orthogonal', rng.choice(['triangular', 'general'])]
+    if ctx.thorough or scale > 1:
+        kinds = ['orthogonal', 'triangular', 'general', 'orthogonal']
+    sizes = [(5.2e5, 1.05e6)] * len(kinds)
+    if ctx.thorough:
+        kinds, sizes = kinds + ['orthogonal', 'triangular'], sizes + [(2.0e6, 2.6e6), (1.1e6, 2.0e6)]
+    for kind, (lo, hi) in zip(kinds, sizes):
+        sysm, fam, spos, U, d = gen_large_rotate(rng, am, kind, lo, hi)
+        nsc = supercell_cells(U) * sysm.natoms
+        ctx.stats.case('oracle:rotate-large', (kind, repr(U), tuple(spos)),
+                       sample={'op': 'rotate-large', 'kind': kind, 'family': fam, 'U': U, 'natoms': sysm.natoms,
+                               'bounding_supercell_atoms': nsc, 'result_atoms': abs(d) * sysm.natoms})
+        ctx.extra.setdefault('large_rotate_supercell_atoms', []).append(nsc)
+        _oracle_rotate(ctx, am, sysm, fam, spos, U, d, U, 'int-list', True, 'rotate', big=True)
+    # the same size reached with MANY atoms per cell and small vectors
+    for _ in range(1 if not ctx.thorough else 3):
+        U = [list(r) for r in rng.choice([[[2, 0, 0], [0, 2, 0], [0, 0, 1]], [[1, 1, 0], [-1, 1, 0], [0, 0, 2]],
+                                          [[3, 0, 0], [0, 1, 0], [0, 0, 1]], [[0, 1, 0], [0, 0, 1], [1, 0, 0]],
+                                          [[-2, 0, 0], [0, 2, 0], [0, 0, 2]], [[1, 0, 0], [1, 2, 0], [0, 0, -1]]])]
+        natoms = int(rng.uniform(5.3e5, 1.0e6) / supercell_cells(U)) + 1
+        gseed = rng.getrandbits(32)
+        ctx.stats.case('oracle:rotate-large', ('many-atoms', natoms, repr(U), gseed),
+                       sample={'op': 'rotate-large', 'kind': 'many-atoms', 'U': U, 'natoms': natoms,
+                               'bounding_supercell_atoms': supercell_cells(U) * natoms})
+        ctx.extra.setdefault('large_rotate_supercell_atoms', []).append(supercell_cells(U) * natoms)
+        _oracle_large_grid(ctx, am, gseed, natoms, U)
+    # supersize to 5e5 .. 1.05e6 atoms (thorough: all of them)
+    bigs = [(1, (81, 81, 80)), (2, (64, 64, 65)), (1, (1, 1, 524289)), (3, (-70, 50, 50)), (1, (1024, (-256, 257), 1)),
+            (1, (100, -100, 101)), (5, (47, 47, 48)), (2049, (16, 16, 1)), (65537, (2, 2, 2))]
+    for natoms, sizes in (bigs if ctx.thorough else rng.sample(bigs, 1 if scale == 1 else 3)):
+        gseed = rng.getrandbits(32)
+        sysm, fam, pts = grid_system(am, random.Random(gseed), natoms)
+        ns = [norm_size(x) for x in sizes]
+        M = math.prod(h - l for l, h in ns)
+        what = f'supersize{sizes} of a {natoms}-atom {fam} cell ({natoms * M} atoms)'
+        replay = {'op': 'supersize-big', 'natoms': natoms, 'sizes': [list(x) for x in ns], 'grid_seed': gseed,
+                  'vects': sysm.box.vects.tolist(), 'origin': sysm.box.origin.tolist()}
+        ctx.stats.case('oracle:supersize-large', (natoms, sizes, fam), sample={'op': 'supersize-large', 'natoms': natoms,
+                                                                               'sizes': [list(x) for x in ns], 'total': natoms * M})
+        try:
+            new = sysm.supersize(*sizes)
+        except Exception as e:  # noqa
+            ctx.violate('supersize:raises', f'{what} raised {type(e).__name__}: {e} for valid integer multipliers', replay)
+            continue
+        _fast_same_crystal(ctx, 'supersize', what, sysm, pts, 8192, new, I3, M, replay, ranges=ns)
+
+
+
 # lattice sites of the conventional cell per setting: numerators over the denominator
 CONV_SITES = {
     'p': (1, [(0, 0, 0)]),
@@ -1865,7 +2141,30 @@ def gen_conv_box(rng, am, setting, plain=False, equal=False):
     return box, label, member
 
 
-def gen_conv_case(rng, am, setting, mode='random', equal=False, decimals=None, cell_noise=False, nmotif=None):
+ORIENTS = ['rotated', 'lefthanded', 'mirror-rotated', 'permuted']
+
+
+def orient_box(rng, am, box, fam, orient):
+    """the same cell in another orientation / handedness (lengths and angles - the crystal family - unchanged): `rotated`
+    rigidly by a rational rotation; `lefthanded`: one or all three Cartesian axes mirrored (a left-handed description in
+    an axis-aligned orientation); `mirror-rotated`: mirrored and rotated; `permuted`: the Cartesian axes permuted
+    (cyclic: a rotation, a swap: left-handed). Relative coordinates keep their meaning."""
+    np = _np()
+    if orient == 'rotated':
+        return reorient(rng, am, box), fam + '-reoriented'
+    if orient == 'lefthanded':
+        sg = rng.choice([(1, 1, -1), (1, -1, 1), (-1, 1, 1), (-1, -1, -1)])
+        return am.Box(vects=box.vects * np.array(sg, dtype=float), origin=box.origin), fam + '-lefthanded'
+    if orient == 'mirror-rotated':
+        Q = rational_rotation(rng) @ np.diag([1.0, 1.0, -1.0])
+        return am.Box(vects=box.vects @ Q.T, origin=box.origin), fam + '-lefthanded-reoriented'
+    if orient == 'permuted':
+        perm = rng.choice([(1, 2, 0), (2, 0, 1), (1, 0, 2), (0, 2, 1), (2, 1, 0)])
+        return am.Box(vects=box.vects[:, list(perm)], origin=box.origin), fam + '-axes' + ''.join('xyz'[i] for i in perm)
+    raise ValueError(orient)
+
+
+def gen_conv_case(rng, am, setting, mode='random', equal=False, decimals=None, cell_noise=False, nmotif=None, orient=None):
     """a conventional cell of the setting: 1-3 motif atoms per lattice point (the first one, type 1, on the lattice
     points; types, charges and tags are functions of the motif atom - the crystal has the primitive periodicity).
     Storage: `plain` = every coordinate in [0, 1); otherwise a coordinate 0 is stored as 1.0 (the far face / edge /
@@ -1905,6 +2204,8 @@ def gen_conv_case(rng, am, setting, mode='random', equal=False, decimals=None, c
     box, fam, member = gen_conv_box(rng, am, setting, plain=(mode == 'plain'), equal=equal)
     if mode == 'random' and rng.random() < 1 / 6:
         box, fam = reorient(rng, am, box), fam + '-reoriented'
+    if orient:
+        box, fam = orient_box(rng, am, box, fam, orient)
     shift = [Fraction(0)] * 3
     if mode == 'offset':
         # the whole crystal displaced rigidly: no atom on the lattice points, one (or several) a little off them
@@ -2047,6 +2348,19 @@ def _search_conversions(ctx, rng, am):
             if case['check_basis'] and rng.random() < 0.1:
                 case['check_family'] = False        # (the documented switch, on a cell that would pass the family test)
             _run_conversion(ctx, am, case)
+        # ORIENTATIONS: the conventional cell of every setting rotated rigidly / described left-handed / mirrored and
+        # rotated / with the Cartesian axes permuted (none of them LAMMPS-oriented): the conversion is a re-expression
+        # like any other - result LAMMPS-compatible, every atom inside, the same crystal
+        for orient in ORIENTS * ctx.n(1, 3):
+            case = gen_conv_case(rng, am, setting, mode=rng.choice(['plain', 'far', 'random']), orient=orient)
+            case['op'], case['check_basis'] = 'conversion', True
+            case['call_setting'] = 't' if setting[0] == 't' and rng.random() < 0.35 else setting
+            ctx.stats.case('oracle:conversion-oriented', (setting, orient, repr(case['stored']), repr(case['vects'])),
+                           sample={'op': 'c2p->p2c', 'setting': setting, 'family': case['family'], 'orientation': orient,
+                                   'storage': case['mode']})
+            ctx.extra.setdefault('conversion_orientations', {})
+            ctx.extra['conversion_orientations'][orient] = ctx.extra['conversion_orientations'].get(orient, 0) + 1
+            _run_conversion(ctx, am, case)
         # coincidentally EQUAL lattice constants / angles (b = c, a = c, a = b = c with oblique angles, beta = gamma,
         # hexagonal c = a): members of the family by the library's own definition with the default check_family=True, the
         # others with check_family=False
@@ -2105,6 +2419,107 @@ def _search_conversions(ctx, rng, am):
             _run_mixed(ctx, am, case)
 
 
+def _search_p2c_direct(ctx, rng, am, scale=1):
+    """primitive_to_conventional called DIRECTLY on cells in every orientation (it "expects a primitive unit cell, no
+    checks are performed": any cell is an input): LAMMPS-oriented, rotated rigidly, left-handed (mirrored axis-aligned /
+    mirrored and rotated / Cartesian axes permuted), general dyadic vectors of either handedness - under every setting,
+    'p' included. The conversion is rotate() by the integer vectors of the setting, so every clause of a re-oriented cell
+    applies: count x lattice points, volume, the same crystal through the returned transform, the requested vectors,
+    LAMMPS-compatible, every atom inside, input untouched. Then conventional_to_primitive undoes it."""
+    np = _np()
+    from atomman.tools import miller
+    kinds = ['normal'] + ORIENTS + ['general', 'lefthanded-general']
+    for setting in CONV_SITES:
+        tab = np.asarray(miller.vector_conventional_to_primitive(np.identity(3), setting=setting), dtype=float)
+        U = [[int(round(x)) for x in row] for row in tab.tolist()]
+        d = _det3(U)
+        if not np.allclose(tab, np.array(U)) or abs(d) != NLAT[setting]:
+            # (the centering tables are property C16's; what is needed here is that they are integer vectors of the
+            # right index - otherwise rotate would refuse them)
+            ctx.violate('conversion-p2c:table', f'the primitive -> conventional vectors of setting {setting!r} are {tab.tolist()}: '
+                        f'not integers of determinant {NLAT[setting]}', {'op': 'p2c-table', 'setting': setting})
+            continue
+        for kind in kinds * (ctx.n(2, 8) * scale):
+            while True:
+                box, fam = _gen_box(rng, am)
+                if kind == 'general' and fam == 'general' or kind == 'lefthanded-general' and fam == 'lefthanded' \
+                        or (kind not in ('general', 'lefthanded-general') and fam not in ('general', 'lefthanded')):
+                    break
+            if kind in ORIENTS:
+                box, fam = orient_box(rng, am, box, fam, kind)
+            history = gen_history(rng) if rng.random() < 0.2 else None
+            sysm, fam, spos = gen_system(rng, am, fam_box=(box, fam), far=rng.random() < 0.3, history=history)
+            outside = history is None and rng.random() < 0.15
+            if outside:
+                # an atom listed one cell vector outside the cell (same crystal): the identity vectors of 'p' never refuse
+                # it; under the other settings rotate's bounding supercell may miss an image ("Filtering failed", the
+                # refusal rotate shares with its model)
+                case = dict(sysm._c04)
+                case['spos'] = [list(x) for x in case['spos']]
+                k = rng.randrange(len(case['spos']))
+                case['spos'][k] = [x + rng.choice([-1, 0, 1]) for x in case['spos'][k]]
+                sysm = build_system(am, case)
+                fam += '+outside'
+            flag = (True, 1, np.True_)[rng.randrange(3)]
+            ctx.stats.case('oracle:p2c-direct', (setting, kind, repr(sysm._c04['vects']), tuple(spos)),
+                           sample={'op': 'p2c', 'setting': setting, 'orientation': kind, 'family': fam, 'natoms': sysm.natoms,
+                                   'lammps_oriented_input': _is_lammps_normal(np, sysm.box.vects)})
+            ctx.extra.setdefault('p2c_direct_orientations', {})
+            ctx.extra['p2c_direct_orientations'][kind] = ctx.extra['p2c_direct_orientations'].get(kind, 0) + 1
+            label = f'primitive_to_conventional(setting={setting!r})'
+            res = _oracle_rotate(ctx, am, sysm, fam, spos, U, d, U, 'centering-table', True, 'conversion-p2c',
+                                 call=lambda s_: s_.dump('primitive_to_conventional', setting=setting, return_transform=flag),
+                                 label=label, may_refuse=outside and setting != 'p', replay_extra={'p2c_setting': setting})
+            if res is None or outside:
+                continue
+            conv2, T2 = res
+            what = (f'{label} of a {fam} cell {sysm.box.vects.tolist()} at {sysm.box.origin.tolist()}, relative positions '
+                    f'{[[float(x) for x in sp] for sp in spos]}, then conventional_to_primitive(check_basis=False)')
+            # (a left-handed input comes back as a right-handed conventional cell with its third vector reversed: relative
+            # coordinate s_c -> 1 - s_c, which maps the centring sites of every setting onto themselves except those of
+            # the two rhombohedral settings, which it exchanges)
+            back = setting
+            if float(np.linalg.det(sysm.box.vects)) < 0 and setting in ('t1', 't2'):
+                back = 't2' if setting == 't1' else 't1'
+            what = what.replace('then conventional_to_primitive(', f'then conventional_to_primitive(setting={back!r}, ')
+            replay = {'op': 'p2c-undo', 'case': sysm._c04, 'setting': setting, 'back': back, 'family': fam}
+            try:
+                prim2, T3 = conv2.dump('conventional_to_primitive', setting=back, check_basis=False, return_transform=True)
+            except Exception as e:  # noqa
+                ctx.violate('conversion-p2c:undo-raises', f'{what} raised {type(e).__name__}: {e}', replay)
+                continue
+            _check_p2c_undone(ctx, sysm, spos, prim2, T3 @ T2, what, replay, extra_tol=_p2c_cleanup(np, sysm, U))
+
+
+def _p2c_cleanup(np, sysm, U):
+    """the clean-up bound of the double conversion: the Box.vects setter zeroes tilt components below 1e-9 of the largest
+    one, in the normalized conventional cell U.V and again in the normalized primitive cell V (second-order terms of a
+    cell sheared by a few ppm in its history; 0.0 for every cell without one) - `cleanup_extra`, as for rotate."""
+    cl = cleanup_extra(np, np.array(U, dtype=float) @ sysm.box.vects) + cleanup_extra(np, sysm.box.vects)
+    return 4 * cl * float(np.abs(np.linalg.inv(sysm.box.vects)).sum(axis=0).max()) if cl else 0.0
+
+
+def _check_p2c_undone(ctx, sysm, spos, prim2, T32, what, replay, extra_tol=0.0):
+    """the primitive cell that comes back from its conventional cell: the same crystal, atom for atom once, in a
+    LAMMPS-compatible cell with every atom inside; for a right-handed input the same three cell vectors turned by the
+    composite transform (a left-handed input comes back with a right-handed cell of the same lattice)."""
+    np = _np()
+    if not (np.allclose(T32 @ T32.T, np.eye(3), atol=1e-9) and abs(np.linalg.det(T32) - 1) < 1e-9):
+        ctx.violate('conversion-p2c:undone', f'{what}: composite transform {T32.tolist()} is not a proper rotation', replay)
+        return
+    if not _check_same_crystal(ctx, 'conversion-p2c:undone', what, sysm, spos, prim2, T32, 1, replay, extra_tol=extra_tol):
+        return
+    if not _is_lammps_normal(np, prim2.box.vects):
+        ctx.violate('conversion-p2c:undone', f'{what}: the cell {prim2.box.vects.tolist()} is not LAMMPS-compatible', replay)
+    sp = np.linalg.solve(prim2.box.vects.T, (prim2.atoms.pos - prim2.box.origin).T).T
+    if sp.min() < -1e-9 or sp.max() > 1 + 1e-9:
+        ctx.violate('conversion-p2c:undone', f'{what}: atoms outside the cell (rel range {sp.min()}..{sp.max()})', replay)
+    if float(np.linalg.det(sysm.box.vects)) > 0 and \
+            not np.allclose(prim2.box.vects, sysm.box.vects @ T32.T, rtol=0, atol=1e-8 * float(np.abs(sysm.box.vects).max())):
+        ctx.violate('conversion-p2c:undone', f'{what}: the cell that comes back, {prim2.box.vects.tolist()}, is not the original '
+                    f'one turned by the composite transform, {(sysm.box.vects @ T32.T).tolist()}', replay)
+
+
 def _run_conversion(ctx, am, case):
     np = _np()
     setting = case['setting']
@@ -2132,6 +2547,7 @@ def _run_conversion(ctx, am, case):
             + (f", pbc {case['pbc']}" if not all(case.get('pbc', [True])) else '')
             + (f", history on the object {case['history']}" if case.get('history') else ''))
     before = conv.atoms.pos.copy()
+    back = setting
     try:
         if dec is not None and nb % 4 == 1:
             # the documented signature dump(system, setting, smallshift, rtol, atol, check_basis, check_family,
@@ -2143,7 +2559,7 @@ def _run_conversion(ctx, am, case):
         else:
             prim, T1 = conv.dump('conventional_to_primitive', setting=case['call_setting'], return_transform=True,
                                  check_basis=(case['check_basis'] if nb % 5 else (np.True_ if case['check_basis'] else 0)), **kw)
-        conv2, T2 = prim.dump('primitive_to_conventional', setting=setting, return_transform=True)
+        conv2, T2 = prim.dump('primitive_to_conventional', setting=back, return_transform=True)
     except Exception as e:  # noqa
         if isinstance(e, ValueError) and 'Filtering failed' in str(e) and any(x < 0 or x > 1 for t in case['stored'] for x in t):
             # an atom stored outside the cell may fall outside rotate's bounding supercell: the refusal rotate and
@@ -2169,34 +2585,59 @@ def _run_conversion(ctx, am, case):
     if not _check_same_crystal_partial(ctx, 'conversion:c2p', f'conventional_to_primitive: {what}', conv, sp_exact, prim, T1, replay,
                                        extra_tol=ext):
         return
-    if not (prim.box.is_lammps_norm() and conv2.box.is_lammps_norm()):
-        ctx.violate('conversion:lammps-normal', f'converted cell is not LAMMPS-compatible ({what})', replay)
     for nm, cell in (('primitive', prim), ('conventional', conv2)):
-        sp = cell.atoms_prop('pos', scale=True)
+        if not (_is_lammps_normal(np, cell.box.vects) and cell.box.is_lammps_norm()):
+            ctx.violate('conversion:lammps-normal', f'{nm} cell {cell.box.vects.tolist()} is not LAMMPS-compatible ({what})', replay)
+        sp = np.linalg.solve(cell.box.vects.T, (cell.atoms.pos - cell.box.origin).T).T
         if sp.min() < -1e-9 or sp.max() > 1 + 1e-9:
             ctx.violate('conversion:inside', f'{nm} cell has atoms outside (rel range {sp.min()}..{sp.max()}; {what})', replay)
     Ttot = T2 @ T1
-    if not _check_same_crystal(ctx, 'conversion:roundtrip', f'c2p then p2c: {what}', conv, sp_exact, conv2, Ttot, 1, replay,
-                               extra_tol=ext):
+    lh = float(np.linalg.det(conv.box.vects)) < 0
+    if lh and setting in ('t1', 't2'):
+        # a LEFT-handed rhombohedrally centred cell: its primitive cell comes back right-handed (third primitive vector
+        # reversed), and no conventional cell built on those three vectors spans the lattice of the original conventional
+        # cell (for the other settings the one of the same setting does): the result is the same infinite crystal - every
+        # atom an original one modulo the original lattice, none twice, the original count and volume - in a cell of another
+        # lattice of the same index, so the originals need not be represented once each modulo the ORIGINAL cell
+        if conv2.natoms != conv.natoms or abs(conv2.box.volume - abs(float(np.linalg.det(conv.box.vects)))) > 1e-8 * conv2.box.volume:
+            ctx.violate('conversion:roundtrip:count', f'c2p then p2c: {conv2.natoms} atoms in {conv2.box.volume}, originally '
+                        f'{conv.natoms} in {abs(float(np.linalg.det(conv.box.vects)))} ({what})', replay)
+            return
+        if not _check_same_crystal_partial(ctx, 'conversion:roundtrip', f'c2p then p2c: {what}', conv, sp_exact, conv2, Ttot,
+                                           replay, extra_tol=ext):
+            return
+    elif not _check_same_crystal(ctx, 'conversion:roundtrip', f'c2p then p2c: {what}', conv, sp_exact, conv2, Ttot, 1, replay,
+                                 extra_tol=ext):
         return
     # "undo one another": the composite is the identity re-expression - same cell vectors, composite
     # transform = identity, and the atoms are the original ones modulo the lattice *without* any rotation
     # (a conventional cell given in a general orientation comes back LAMMPS-normal: turned by the composite transform)
-    if not np.allclose(conv2.box.vects, conv.box.vects @ Ttot.T, rtol=0, atol=1e-8 * conv.box.a):
+    normal_in = _is_lammps_normal(np, conv.box.vects)
+    ok = True
+    if lh:
+        # a LEFT-handed description of the conventional cell: the primitive cell comes back right-handed (third vector
+        # reversed by normalize), and the conventional cell built on THAT is another cell of the same lattice - the same
+        # crystal (checked above, atom for atom), not the same three vectors: the "in place" clauses do not apply; the
+        # primitive cell must still come back from its conventional cell (below)
+        ctx.extra['conversion_lefthanded'] = ctx.extra.get('conversion_lefthanded', 0) + 1
+    elif not np.allclose(conv2.box.vects, conv.box.vects @ Ttot.T, rtol=0, atol=1e-8 * conv.box.a):
+        ok = False
         ctx.violate('conversion:cell', f'c2p then p2c changed the cell {conv.box.vects.tolist()} '
                     f'-> {conv2.box.vects.tolist()} (composite transform {Ttot.tolist()}; {what})', replay)
-    elif conv.box.is_lammps_norm() and not np.allclose(Ttot, np.eye(3), atol=1e-8):
+    elif normal_in and not np.allclose(Ttot, np.eye(3), atol=1e-8):
+        ok = False
         ctx.violate('conversion:transform', f'c2p then p2c: composite transform {Ttot.tolist()} '
                     f'is not the identity ({what})', replay)
     else:
         _check_same_crystal(ctx, 'conversion:undo', f'c2p then p2c compared in place: {what}', conv,
-                            sp_exact, conv2, np.eye(3) if conv.box.is_lammps_norm() else Ttot, 1, replay, extra_tol=ext)
+                            sp_exact, conv2, np.eye(3) if normal_in else Ttot, 1, replay, extra_tol=ext)
+    if ok:
         # ... and the other way round: the primitive cell converted to the conventional one and back is itself.
         # (check_basis=False: conv2 sits at the Cartesian origin with the atoms' Cartesian positions kept, so for an
         # original box origin that is no lattice vector its lattice points are not at its relative (0,0,0), which is
         # all the lattice-site test looks at - the documented case for switching the test off)
         try:
-            prim2, T3 = conv2.dump('conventional_to_primitive', setting=setting, return_transform=True,
+            prim2, T3 = conv2.dump('conventional_to_primitive', setting=back, return_transform=True,
                                    check_basis=False)
         except Exception as e:  # noqa
             ctx.violate('conversion:raises', f'converting the conventional cell obtained from the primitive one back '
@@ -2546,19 +2987,33 @@ def replay(ctx, payload):
             M = math.prod(h - l for l, h in sizes)
             _check_same_crystal(ctx, 'supersize', 'replay', sysm, spos, new, np.eye(3), M, r)
         else:
+            call, key = None, 'rotate'
+            if r.get('p2c_setting'):
+                call, key = (lambda s_: s_.dump('primitive_to_conventional', setting=r['p2c_setting'], return_transform=True)), 'conversion-p2c'
             _oracle_rotate(ctx, am, sysm, r.get('family', '?'), spos, r['U'], _det3(r['U']),
                            np.array(r['uvws']) if 'uvws' in r else r['U'], r.get('form', 'int-list'),
-                           r.get('accepted', True), 'rotate', tol=r.get('tol'))
+                           r.get('accepted', True), key, tol=r.get('tol'), call=call, label=r.get('label', 'rotate'),
+                           may_refuse=r.get('may_refuse', False), big=r.get('big', False))
     elif r.get('op') in ('supersize-big', 'rotate-big') and 'grid_seed' in r:
         sysm, fam, pts = grid_system(am, random.Random(r['grid_seed']), r['natoms'])
         if r['op'] == 'supersize-big':
             sizes = [tuple(x) for x in r['sizes']]
             new = sysm.supersize(*sizes)
             _fast_same_crystal(ctx, 'supersize', 'replay', sysm, pts, 8192, new, np.eye(3), math.prod(h - l for l, h in sizes), r,
-                               shifts=set(itertools.product(*[range(l, h) for l, h in sizes])))
+                               ranges=sizes)
         else:
             new, T = sysm.rotate(r['U'], return_transform=True)
             _fast_same_crystal(ctx, 'rotate', 'replay', sysm, pts, 8192, new, T, abs(_det3(r['U'])), r)
+    elif r.get('op') == 'p2c-undo' and 'case' in r:
+        sysm = build_system(am, r['case'])
+        spos = exact_rel(sysm) if r['case'].get('history') else [tuple(Fraction(x) for x in s_) for s_ in r['case']['spos']]
+        conv2, T2 = sysm.dump('primitive_to_conventional', setting=r['setting'], return_transform=True)
+        prim2, T3 = conv2.dump('conventional_to_primitive', setting=r.get('back', r['setting']), check_basis=False,
+                               return_transform=True)
+        tab = __import__('atomman').tools.miller.vector_conventional_to_primitive(np.identity(3), setting=r['setting'])
+        _check_p2c_undone(ctx, sysm, spos, prim2, T3 @ T2, 'replay', r, extra_tol=_p2c_cleanup(np, sysm, np.rint(tab)))
+    elif r.get('op') == 'rotate-large-grid':
+        _oracle_large_grid(ctx, am, r['grid_seed'], r['natoms'], r['U'])
     elif r.get('op') == 'resolve' and 'case' in r:
         conv = build_conv(am, r['case'])
         try:
